@@ -391,6 +391,9 @@ func c07Run(c *Ctx) {
 		if k == 4 {
 			nIt = 8
 		}
+		if k == 3 && !c.Thorough() {
+			nIt = 10 // quick tier: three-item components over the first ten item kinds (all of them in the thorough tier)
+		}
 		if !seqEnum(c, nIt, k, func(idx []int) bool {
 			if !distinctSlots(idx) {
 				return true
@@ -485,7 +488,7 @@ func init() {
 			if tier == "thorough" {
 				return map[string]any{"component_items_single_use": 4, "component_items_multi_use": 3, "max_uses": 3}
 			}
-			return map[string]any{"component_items_single_use": 3, "component_items_multi_use": 2, "max_uses": 3}
+			return map[string]any{"component_items_single_use": 3, "item_alphabet_len3": 10, "component_items_multi_use": 2, "max_uses": 3}
 		},
 		Assume: []string{"slot bodies use only text and data-map variables; component files do not use components themselves"},
 		Run:    c07Run,
